@@ -389,6 +389,57 @@ example :
     Incr 0 ops ∧ NoEmpty (runOps fresh ops) ∧ backupView (backupRun fresh (runOps fresh ops) 100 4).1 9 2 = some (7, blob "bb") := by
   refine ⟨by simp [Incr], by unfold NoEmpty; decide, by decide⟩
 
+/-! ## the judge -/
+
+/-- the judge accepts a backup that serves what the source serves (whatever the model predicted) -/
+theorem judge_accepts_equal (rev : Nat) (a m : Option (Nat × String)) : classify rev a m a = none := by
+  cases a with
+  | none => rfl
+  | some x => simp [classify, verdict]
+
+/-- the MODEL's backup passes the judge after every run covered by `backup_converges_partial` -/
+theorem judge_accepts_model_partial (kind : Kind) (ttl : Nat × Nat) (ops : List (Nat × Op)) (hinc : Incr 0 ops)
+    (hne : NoEmpty (runOps (CVol.init kind ttl) ops)) (b : CVol) (n : Nat)
+    (hp : Prefix b (runOps (CVol.init kind ttl) ops) n) (nowSec nowNs t k : Nat) (mv : Option (Nat × String)) :
+    classify (runOps (CVol.init kind ttl) ops).rev (obs (view (runOps (CVol.init kind ttl) ops) t k)) mv
+      (obs (backupView (backupRun b (runOps (CVol.init kind ttl) ops) nowSec nowNs).1 t k)) = none := by
+  rw [(backup_converges_partial kind ttl ops hinc hne b n hp nowSec nowNs t k).2]
+  exact judge_accepts_equal _ _ _
+
+/-- A failure is filed under a RECORDED defect only if the model of the recorded mechanisms serves
+    exactly the observed answer; every other failure keeps the verdict's own (unrecorded) class. -/
+theorem judge_unexplained_failure_is_unrecorded (rev : Nat) (sv mv impl : Option (Nat × String)) (c : String)
+    (h : classify rev sv mv impl = some c) (hne : impl ≠ mv) :
+    verdict sv impl = some c ∧ c ∈ ["backup/wrong-content", "backup/misses-live-blob", "backup/serves-deleted-blob"] := by
+  unfold classify at h
+  cases hv : verdict sv impl with
+  | none => simp [hv] at h
+  | some cls =>
+    simp only [hv, hne, if_false, Option.some.injEq] at h
+    subst h
+    refine ⟨rfl, ?_⟩
+    unfold verdict at hv
+    cases sv <;> cases impl <;> simp at hv
+    · simp [← hv]
+    · simp [← hv]
+    · rw [← hv.2]; simp
+
+/-- non-vacuity, and the situation the clause is about: source compaction, then a write, then a run
+    WITH the local-compaction step.  The model's backup (its local compaction keeps the AppendAtNs of
+    the records it copies, so the delta request still starts behind the last backed-up record) fetches
+    the new blob and the judge accepts; a backup that lacks it is reported under the unrecorded class. -/
+example :
+    let s1 := runOps fresh [(1, .write 1 7 (blob "aa")), (2, .write 2 7 (blob "bb"))]
+    let b1 := (backupRun fresh s1 100 3).1
+    let s1' := runOps s1 [(4, .delete 1 7)]
+    let b1' := (backupRun b1 s1' 100 5).1
+    let s2 := runOps (srcCompact s1' 100 6) [(7, .write 3 7 (blob "cc"))]
+    let r2 := backupRun b1' s2 100 8
+    r2.2.1 = true ∧ r2.2.2 = false ∧ backupView r2.1 9 3 = some (7, blob "cc") ∧
+    classify s2.rev (obs (view s2 9 3)) (obs (backupView r2.1 9 3)) (obs (backupView r2.1 9 3)) = none ∧
+    classify s2.rev (obs (view s2 9 3)) (obs (backupView r2.1 9 3)) none = some "backup/misses-live-blob" ∧
+    classify s2.rev (obs (view s2 9 1)) (obs (backupView r2.1 9 1)) (some (7, "aa")) = some "backup/serves-deleted-blob" := by decide
+
 /-! ## T1: the sources the model mirrors (a change breaks a named obligation) -/
 
 theorem bridge_sources :
